@@ -226,7 +226,6 @@ func RuleCX1(c *Ctx) {
 	}
 }
 
-
 // enumConstsIn collects the constants of the enumeration mentioned in e; an identifier
 // (also as `x...`) that names a package-level variable initialised with a composite literal
 // stands for the constants in that literal.
